@@ -1,10 +1,7 @@
 (* C19 round 2 — preconditions of the kernels that round 1 only counted: convex_hull_ijv,
-   _filter.median_filter, emd_hat_int32.  The hull precondition is C02's executable model itself
-   (Model.Hull, imported): the call is accepted by the two asserts, the index list is repeat-free
-   (C02's domain: a repeated label equal to max_label makes the kernel evaluate labels_ijv[pixidx, 2]
-   one row past the buffer) and the model's OVERFLOW FLAG is false (no label's hull outgrew its own
-   rows: outidx + num_emitted <= pixidx).  Until C02's general no_overflow lands this is a per-
-   instance discharge, not a theorem about all inputs.  Definitions only. *)
+   _filter.median_filter, emd_hat_int32.  Hull: the call is accepted by the two asserts and the index list
+   is repeat-free (C02's domain: a repeated label equal to max_label makes the kernel evaluate
+   labels_ijv[pixidx, 2] one row past the buffer).  Definitions only. *)
 From Coq Require Import ZArith List Bool.
 From Centro Require Model.Hull.
 Import ListNotations.
@@ -13,10 +10,11 @@ Open Scope Z_scope.
 Fixpoint nodupb (l : list Z) : bool :=
   match l with [] => true | a :: t => negb (existsb (fun x => x =? a) t) && nodupb t end.
 
+(* round 3: the kernel's two asserts, a non-empty buffer and a repeat-free index list; the write bound
+   now follows for ALL such inputs from C02_hull_no_overflow (Proofs.HullC19Safe) *)
 Definition kernel_pre_hull (ijv : list Hull.row) (indexes : list Z) : bool :=
   match ijv with [] => false | _ => true end &&
-  Hull.kernel_accepts ijv indexes && nodupb indexes &&
-  negb (snd (Hull.convex_hull_ijv ijv indexes)).
+  Hull.kernel_accepts ijv indexes && nodupb indexes.
 
 (* _filter.median_filter(data, mask, output, radius, percent): three uint8 arrays (Cython buffer
    mode 'c'); the kernel addresses ALL THREE with data's strides.  sh = (rows cols) and st =
